@@ -293,22 +293,29 @@ class Interp:
         elif isinstance(st, ast.Try):
             # abstract runs raise only through explicit `raise`; handlers that name
             # the raised exception class (or catch everything) take over
+            flow = (_Raise, _Return, _Break, _Continue)
             try:
-                self.exec_block(st.body, env, f)
-            except _Raise as r:
-                for h in st.handlers:
-                    names = [] if h.type is None else ([norm(x) for x in h.type.elts] if isinstance(h.type, ast.Tuple) else [norm(h.type)])
-                    if h.type is None or r.what in names or "Exception" in names or "BaseException" in names:
-                        try:
-                            self.exec_block(h.body, env, f)
-                        finally:
-                            pass
-                        break
+                try:
+                    self.exec_block(st.body, env, f)
+                except _Raise as r:
+                    for h in st.handlers:
+                        names = [] if h.type is None else ([norm(x) for x in h.type.elts] if isinstance(h.type, ast.Tuple) else [norm(h.type)])
+                        if h.type is None or r.what in names or "Exception" in names or "BaseException" in names:
+                            try:
+                                self.exec_block(h.body, env, f)
+                            except _Raise as r2:
+                                if r2.what == "?":      # bare `raise` re-raises the handled exception
+                                    raise r from None
+                                raise
+                            break
+                    else:
+                        raise
                 else:
-                    self.exec_block(st.finalbody, env, f)
-                    raise
-            else:
-                self.exec_block(st.orelse, env, f)
+                    self.exec_block(st.orelse, env, f)
+            except flow:
+                # the finally clause runs on every way out; an exit of its own replaces the pending one
+                self.exec_block(st.finalbody, env, f)
+                raise
             self.exec_block(st.finalbody, env, f)
         elif isinstance(st, ast.AugAssign):
             cur = self.eval(st.target, env, f)
